@@ -46,6 +46,18 @@ class Stub:
     def __reduce_ex__(self, p):
         raise TypeError("stubs are not picklable")
 
+    def __getattr__(self, name):
+        # attribute access on the stand-in for a global denotes the dotted global (module.Outer.Inner is what the
+        # unpickler resolves for the name "Outer.Inner"): it is the same resolution event
+        term = self.__dict__.get("_term")
+        if term is None or term[0] != "g" or name.startswith("__"):
+            raise AttributeError(name)
+        cache = self.__dict__.setdefault("_sub", {})
+        if name not in cache:
+            cache[name] = Stub(self._log, ("g", term[1], term[2] + "." + name))
+        self._log.append({"e": "import", "m": normmod(sname(term[1])), "n": sname(term[2] + "." + name)})
+        return cache[name]
+
     def append(self, x):
         if self._term[0] == "g":
             raise AttributeError("append")
